@@ -290,6 +290,21 @@ func (g *generator) walkEnum(schema *openapi3.Schema) (ast.Type, error) {
 	}
 
 	for _, value := range schema.Enum {
+		// a member that is not of the enum's type can not be represented
+		switch value.(type) {
+		case nil:
+		case string:
+			if typeName != openapi3.TypeString {
+				return ast.Type{}, fmt.Errorf("enum member %#v is not of type %s", value, typeName)
+			}
+		case float64, int, int64:
+			if typeName == openapi3.TypeString {
+				return ast.Type{}, fmt.Errorf("enum member %#v is not of type %s", value, typeName)
+			}
+		default:
+			return ast.Type{}, fmt.Errorf("enum member %#v is not of type %s", value, typeName)
+		}
+
 		enums = append(enums, ast.EnumValue{
 			Type:  enumType,
 			Name:  fmt.Sprintf(format, value),
